@@ -1,7 +1,7 @@
 (* Extraction of the heap cluster (C11, C20).  ExtrOcamlBasic only. *)
-Require Import IP.Base.Bytes IP.DM.Value IP.Heap.GoMem IP.Heap.BasicHeap IP.Heap.Script.
+Require Import IP.Base.Bytes IP.DM.Value IP.Heap.GoMem IP.Heap.BasicHeap IP.Heap.Script IP.Heap.Footprint IP.Heap.Conc.
 Require Extraction.
 Require Import ExtrOcamlBasic.
 Extraction Language OCaml.
 Extraction "model.ml" sstep_full sinit slegal has_stream cfg_pinned cfg_repaired cfg_of f64_is_nan dm_eqb
-  pstep legal runh legalh read_obs.
+  pstep legal runh legalh read_obs sstep dump basic_check scen_check.
